@@ -37,6 +37,62 @@ func (e *Env) auditRecordNode() *core.Node {
 	return nil
 }
 
+// upd: a store to a field (or an update of a map field) of the audit record that Task.Execute's call tree
+// builds with NewAuditInfo(), wherever in that call tree it is made (the record is identified by value, so
+// helpers that receive the record as a parameter are covered).
+type upd struct {
+	n     *core.Node
+	field string
+	key   *core.Sym
+	val   *core.Sym
+}
+
+func (e *Env) recordUpdates() []upd {
+	if e.upds != nil {
+		return e.upds
+	}
+	sp := e.spine()
+	ai := e.P.Named("scipipe", "AuditInfo")
+	recNode := e.auditRecordNode()
+	if sp == nil || ai == nil || recNode == nil {
+		return nil
+	}
+	g := sp.g
+	sy := e.xsym()
+	var upds []upd
+	for _, n := range g.Nodes {
+		isRec := func(v ssa.Value) bool { // the record created by the builder's own NewAuditInfo() call
+			b := sy.InCtx(n.Ctx, v)
+			if b != nil && !isCallSym(b, "NewAuditInfo") {
+				b = e.fsym().InCtx(n.Ctx, v)
+			}
+			return b != nil && isCallSym(b, "NewAuditInfo") && b.Val == recNode.Instr.(ssa.Value)
+		}
+		switch x := n.Instr.(type) {
+		case *ssa.Store:
+			if fa, ok := x.Addr.(*ssa.FieldAddr); ok && typeNamed(fa.X.Type()) == ai && isRec(fa.X) {
+				vs := sy
+				if fn := fieldOfAddr(fa).Name(); fn == "StartTime" || fn == "FinishTime" || fn == "ExecTimeNS" {
+					vs = e.fsym()
+				}
+				upds = append(upds, upd{n, fieldOfAddr(fa).Name(), nil, vs.InCtx(n.Ctx, x.Val)})
+			}
+		case *ssa.MapUpdate:
+			if f := fieldOfLoad(x.Map); f != nil {
+				if base := fieldBaseType(x.Map); base == ai {
+					if u, ok := x.Map.(*ssa.UnOp); ok {
+						if fa, ok := u.X.(*ssa.FieldAddr); ok && isRec(fa.X) {
+							upds = append(upds, upd{n, f.Name(), sy.InCtx(n.Ctx, x.Key), sy.InCtx(n.Ctx, x.Value)})
+						}
+					}
+				}
+			}
+		}
+	}
+	e.upds = upds
+	return upds
+}
+
 func c10(e *Env) {
 	r := e.R
 	r.Explanation = "Field-by-field value-flow of the audit record built after a task ran (the function in Execute's call tree that calls NewAuditInfo), resolved through the calling context up to Task.Execute: (R1) Command ← Task.Command (the very field the runner executes), ProcessName ← the task's process name, Params ← Task.Params, StartTime/FinishTime ← two time.Now() results taken on all paths before resp. after the command, ExecTimeNS ← finish.Sub(start) in that orientation, OutFiles[port] ← FileIP.Path for every out-IP, Upstream[Path(in)] ← in.AuditInfo() for every in-IP and for every member of a joined sub-stream (unconditional, complete loops), ID ← random id in NewAuditInfo; (R2) for every out-IP: SetAuditInfo(record), tags of every in-IP merged, record written to <Path>.audit.json (complete loops); (R3) marshal/write errors are fatal (C09.R2, re-evaluated); (R4) a record's Tags map is only ever a fresh map (never another record's map), so tags attached on one branch cannot leak into sibling or upstream records; task tags are derived from the tags of every in-IP."
@@ -62,36 +118,7 @@ func c10(e *Env) {
 	}
 	sy := e.xsym()
 	recNode := e.auditRecordNode()
-	// stores and map updates on the task's record, wherever in Execute's call tree they are made
-	type upd struct {
-		n     *core.Node
-		field string
-		key   *core.Sym
-		val   *core.Sym
-	}
-	var upds []upd
-	for _, n := range g.Nodes {
-		isRec := func(v ssa.Value) bool { // the record created by the builder's own NewAuditInfo() call
-			b := sy.InCtx(n.Ctx, v)
-			return b != nil && isCallSym(b, "NewAuditInfo") && recNode != nil && b.Val == recNode.Instr.(ssa.Value)
-		}
-		switch x := n.Instr.(type) {
-		case *ssa.Store:
-			if fa, ok := x.Addr.(*ssa.FieldAddr); ok && typeNamed(fa.X.Type()) == ai && isRec(fa.X) {
-				upds = append(upds, upd{n, fieldOfAddr(fa).Name(), nil, sy.InCtx(n.Ctx, x.Val)})
-			}
-		case *ssa.MapUpdate:
-			if f := fieldOfLoad(x.Map); f != nil {
-				if base := fieldBaseType(x.Map); base == ai {
-					if u, ok := x.Map.(*ssa.UnOp); ok {
-						if fa, ok := u.X.(*ssa.FieldAddr); ok && isRec(fa.X) {
-							upds = append(upds, upd{n, f.Name(), sy.InCtx(n.Ctx, x.Key), sy.InCtx(n.Ctx, x.Value)})
-						}
-					}
-				}
-			}
-		}
-	}
+	upds := e.recordUpdates()
 	byField := map[string][]upd{}
 	for _, u := range upds {
 		byField[u.field] = append(byField[u.field], u)
@@ -318,8 +345,14 @@ func c10(e *Env) {
 				continue
 			}
 			if ac.key == "SetAuditInfo" {
+				isRec := func(z *core.Sym) bool {
+					return isCallSym(z, "NewAuditInfo") && recNode != nil && z.Val == recNode.Instr.(ssa.Value)
+				}
 				arg := sy.InCtx(n.Ctx, n.Call.Args[1])
-				if !(isCallSym(arg, "NewAuditInfo") && recNode != nil && arg.Val == recNode.Instr.(ssa.Value)) {
+				if !isRec(arg) {
+					arg = e.fsym().InCtx(n.Ctx, n.Call.Args[1]) // the record may come out of a (large) builder helper
+				}
+				if !isRec(arg) {
 					o.Fail(g.Where(n), "the attached record is "+trunc(arg.String(), 80)+", not the one just built")
 					continue
 				}
@@ -349,7 +382,7 @@ func c10(e *Env) {
 		if inCallback(n) {
 			continue
 		}
-		if n.IsCallTo("encoding/json.MarshalIndent", "encoding/json.Marshal") || (isWriteFile(n) && isCallSym(e.argSym(n, 0), fnAuditPath)) {
+		if n.IsCallTo("encoding/json.MarshalIndent", "encoding/json.Marshal", "(*encoding/json.Encoder).Encode") || (isWriteFile(n) && isCallSym(e.argSym(n, 0), fnAuditPath)) {
 			res := g.Run(core.Scenario{Start: n, Result: errResult(n, core.ErrOther, false)})
 			ob3.Check(res.NormalReturn() == nil, g.Where(n), "err ⇒ exit", "an error from "+nodeDesc(n)+" is not fatal: an output would be finalised without its audit record")
 		}
